@@ -59,6 +59,7 @@ type schedRun struct {
 	loadPlan  string                         // what the next store.Get should do
 	savePlan  bool
 	delPlan   bool
+	mutRng    *rng          // PRNG of the record mutations of this schedule
 	newGate   bool          // stop threads at "entry.new" (inside the shard's get-or-create)
 	setGate   chan struct{} // when set, the store.Set of key setKey announces itself on setAt and waits here
 	setAt     chan struct{}
@@ -239,6 +240,10 @@ var directedSchedules = [][]string{
 	// two keys persisted at the same time, restart, both served from their own records
 	{"store:1", "arrive:0", "arrive:1", "get:0:honest", "get:1:honest", "upEnd:0:cacheable:60", "upEnd:1:cacheable:60", "complete:0", "complete:1",
 		"saveRace:0:1", "crash", "arrive:0", "get:2:honest", "age:2", "arrive:1", "get:3:honest", "age:3"},
+	// damaged records of a cached response after a restart: no response part, no expiry — each is a miss
+	{"store:1", "arrive:0", "get:0:honest", "upEnd:0:cacheable:60", "complete:0", "saved:0:1", "crash",
+		"arrive:0", "get:1:noresp", "upEnd:1:error:1", "complete:1", "saved:1:0", "crash",
+		"arrive:0", "get:2:noexp", "upEnd:2:error:1", "complete:2", "saved:2:0"},
 	// hit-for-pass lapse: single prober, others wait
 	{"store:0", "hfp:2s", "arrive:0", "get:0", "upEnd:0:error:1", "complete:0", "saved:0:1", "tick:1", "arrive:0", "get:1", "tick:2", "arrive:0", "arrive:0", "get:2", "get:3", "park:3", "upEnd:1:nostore:1", "upEnd:2:cacheable:3", "complete:2", "saved:2:1", "resume:3", "age:3"},
 	// restart: served from the store with Age continuing, then past the original expiry
@@ -267,6 +272,7 @@ func runSchedule(cr *rng, seq int, script []string) (blocked bool) {
 		queue: map[interface{}][]*schedThread{}, entryIdx: map[interface{}]int{}, lastLoads: map[int]string{}}
 	p := newPipeline(1000, hfp, withStore, server.ServerOption{Addr: ":0", CompressMinLength: 1 << 20}, nil, nil)
 	run.p = p
+	run.mutRng = cr.fork(0x6d7574)
 	curRun = run
 	defer func() { curRun = nil }()
 	if p.store != nil {
@@ -284,11 +290,23 @@ func runSchedule(cr *rng, seq int, script []string) (blocked bool) {
 				if ok {
 					data, err, out = rec, nil, "bytes:"+hxb(rec)
 				}
+			case plan == "noresp" && len(rec) >= 24: // scripted: a hit record whose response part is gone (refused)
+				d := append([]byte(nil), rec[0:4]...)
+				d = append(d, 0, 0, 0, 0)
+				d = append(d, rec[len(rec)-16:]...)
+				data, err, out = d, nil, "bytes:"+hxb(d)
+			case plan == "noexp" && len(rec) >= 24: // scripted: a record without an expiry (refused)
+				d := append([]byte(nil), rec...)
+				for i := len(d) - 8; i < len(d); i++ {
+					d[i] = 0
+				}
+				data, err, out = d, nil, "bytes:"+hxb(d)
 			case plan == "truncate": // scripted: the record cut in half (must be refused, whatever its content)
 				d := append([]byte(nil), rec[:len(rec)/2]...)
 				data, err, out = d, nil, "bytes:"+hxb(d)
 			default: // mutate
-				d, _ := mutateRecord(newRng(uint64(len(key))*7919+uint64(len(rec))+uint64(run.nextRid)), rec)
+				d, kind := mutateRecord(run.mutRng, rec)
+				stat("mutated-" + kind)
 				data, err, out = d, nil, "bytes:"+hxb(d)
 			}
 			if t != nil {
@@ -495,7 +513,17 @@ func runSchedule(cr *rng, seq int, script []string) (blocked bool) {
 			emit("sched", "arrive", idOf(t), itoa(int64(t.key)), hx(t.method), "=>", posLine(t), itoa(int64(run.eidx(t.entry))))
 		case "get":
 			t := a.t
-			run.loadPlan = arg(2, []string{"honest", "honest", "honest", "error", "mutate", "mutate"}[cr.intn(6)])
+			plans := []string{"honest", "honest", "honest", "error", "mutate", "mutate"}
+			if p.store != nil {
+				p.store.mu.Lock()
+				_, has := p.store.m["GET s.test "+schedKeyURI(t.key)]
+				p.store.mu.Unlock()
+				if has {
+					// a record exists: it is worth returning it damaged more often
+					plans = []string{"honest", "honest", "error", "mutate", "mutate", "mutate"}
+				}
+			}
+			run.loadPlan = arg(2, plans[cr.intn(6)])
 			t.loadOut = "none"
 			run.rel(t)
 			run.await(t)
